@@ -288,6 +288,7 @@ func genC04(tier string, r *core.Rand) C04Plan {
 	if r.Bool() {
 		p.Arm = "peer"
 		pp := genC05(tier, r)
+		pp.Peer.Late = 0 // held mail is C05's arm
 		pp.Lib.Msgs = nil
 		if r.Chance(0.3) {
 			used := map[string]bool{}
